@@ -152,6 +152,7 @@ Definition readd_ok (prev : state) (c : cert) (next : state) : bool :=
       cert_eqb e' (set_tags e (c_tags e')) &&
       incl_b (c_tags e) (c_tags e') && incl_b (c_tags c) (c_tags e') &&
       incl_b (c_tags e') (c_tags e ++ c_tags c) &&
+      (negb (nodup_b (c_tags e)) || nodup_b (c_tags e')) &&
       forallb (fun kv => str_eqb (fst kv) (c_hash c) ||
                          match alookup (fst kv) (cache next) with
                          | Some x => cert_eqb x (snd kv) | None => false end) (cache prev)
@@ -191,9 +192,18 @@ Definition scan_ok (renew : bool) (s : state) (seen : list (hash * list str)) : 
                     | Some c => scan_sel renew c && strs_eqb (c_tags c) (snd p) | None => false end) seen &&
   forallb (fun kv => negb (scan_sel renew (snd kv)) || mem_str (fst kv) (map fst seen)) (cache s).
 
+(** replacing on renewal: afterwards the new certificate is cached and the old one is not (unless
+    it is the same certificate) *)
+Definition replace_ok (old new : cert) (next : state) : bool :=
+  amem (c_hash new) (cache next) && (str_eqb (c_hash old) (c_hash new) || negb (amem (c_hash old) (cache next))).
+(** adding: afterwards the certificate is cached *)
+Definition add_ok (prev : state) (c : cert) (next : state) : bool :=
+  readd_ok prev c next && amem (c_hash c) (cache next).
+
 Definition step_spec_b (prev : state) (w : wstep) (next : state) : bool :=
   match w with
-  | WOp (OAdd c _) => readd_ok prev c next
+  | WOp (OAdd c _) => add_ok prev c next
+  | WOp (OReplace old new _) => replace_ok old new next
   | WOp (OWriteBack c) => writeback_ok same_but_ocsp [c_hash c] prev next
   | WOp (OSetARI h _) => writeback_ok same_but_ari [h] prev next
   | WOp (OSetOCSP upd) => writeback_ok same_but_ocsp (map fst upd) prev next
